@@ -843,19 +843,46 @@ func HandleStore(deps ServerDeps, conn net.Conn, tag string, parts []string, sta
 		return
 	}
 
+	// Resolve the sequence numbers to UIDs before any message is processed:
+	// a message that is auto-moved (Junk/NonJunk) leaves the mailbox and
+	// renumbers the messages behind it
+	var mailboxUIDs []int64
+	uidRows, err := userDB.Query(`
+		SELECT uid FROM message_mailbox
+		WHERE mailbox_id = ?
+		ORDER BY uid ASC
+	`, state.SelectedMailboxID)
+	if err != nil {
+		deps.SendResponse(conn, fmt.Sprintf("%s NO Database error", tag))
+		return
+	}
+	for uidRows.Next() {
+		var uid int64
+		if err := uidRows.Scan(&uid); err == nil {
+			mailboxUIDs = append(mailboxUIDs, uid)
+		}
+	}
+	_ = uidRows.Close()
+
 	// Process each message in the sequence
-	for _, seqNum := range sequences {
-		// Get message by sequence number
+	for _, seq := range sequences {
+		if seq > len(mailboxUIDs) {
+			continue
+		}
+		uid := mailboxUIDs[seq-1]
+
+		// Get message by UID, with its current sequence number
 		query := `
-			SELECT mm.message_id, mm.uid, mm.flags, mm.internal_date
+			SELECT mm.message_id, mm.flags, mm.internal_date,
+				(SELECT COUNT(*) FROM message_mailbox mm2
+				 WHERE mm2.mailbox_id = mm.mailbox_id AND mm2.uid <= mm.uid) as seq_num
 			FROM message_mailbox mm
-			WHERE mm.mailbox_id = ?
-			ORDER BY mm.uid ASC
-			LIMIT 1 OFFSET ?
+			WHERE mm.mailbox_id = ? AND mm.uid = ?
 		`
-		var messageID, uid int64
+		var messageID int64
+		var seqNum int
 		var currentFlags, internalDate string
-		err := userDB.QueryRow(query, state.SelectedMailboxID, seqNum-1).Scan(&messageID, &uid, &currentFlags, &internalDate)
+		err := userDB.QueryRow(query, state.SelectedMailboxID, uid).Scan(&messageID, &currentFlags, &internalDate, &seqNum)
 		if err != nil {
 			// Message not found - skip
 			continue
